@@ -234,6 +234,20 @@ Example C09_nonvacuous_sched :
   = hilbert_partition_s (fun _ => Leaf) (f64_of_bits hilbert_split_tolerance_bits) 32 3 100 idx ws 4 (repeat 9%N 8).
 Proof. vm_compute. reflexivity. Qed.
 
+(* fuel is only a bound: a result obtained with some fuel is the result with any
+   larger fuel -- so "the model returns Ok with fuel F on this case" (checked on
+   every exact correspondence case with F = 2000) means that the unbounded
+   `while` loop of the model terminates on that case with that result *)
+Theorem C09_quantiles_fuel_mono : forall tol fuel fuel' pts ws n r,
+  weighted_quantiles tol fuel pts ws n = Ok r -> fuel <= fuel' -> weighted_quantiles tol fuel' pts ws n = Ok r.
+Proof. exact weighted_quantiles_fuel_mono. Qed.
+Theorem C09_hilbert_fuel_mono : forall tol maxo order fuel fuel' idx ws k p0 r,
+  hilbert_partition tol maxo order fuel idx ws k p0 = Ok r -> fuel <= fuel' ->
+  hilbert_partition tol maxo order fuel' idx ws k p0 = Ok r.
+Proof. exact hilbert_partition_fuel_mono. Qed.
+Print Assumptions C09_quantiles_fuel_mono.
+Print Assumptions C09_hilbert_fuel_mono.
+
 (* the checker used on the implementation's outputs decides the property *)
 Theorem C09_check_monotone_ok : forall idx parts,
   check_monotone idx parts = true <-> (length idx = length parts /\ mono_pairs (combine idx parts)).
